@@ -1076,6 +1076,7 @@ static int ec_at(char *loc, char *cmd, char *arg, char *txt)
 {
 	int beg, end;
 	int lnmode;
+	int ret;
 	char *buf = reg_get(REG(arg), &lnmode);
 	if (!buf || ex_region(loc, &beg, &end))
 		return 1;
@@ -1085,7 +1086,6 @@ static int ec_at(char *loc, char *cmd, char *arg, char *txt)
 	if (cmd[0] == 'r' && cmd[1] == 'a') {
 		struct sbuf *r = sbuf_make();
 		char *s = buf;
-		int ret;
 		while (*s) {
 			if ((unsigned char) *s == '' && s[1]) {
 				char *reg = reg_get((unsigned char) *++s, NULL);
@@ -1101,7 +1101,10 @@ static int ec_at(char *loc, char *cmd, char *arg, char *txt)
 		sbuf_free(r);
 		return ret;
 	}
-	return ex_command(buf);
+	buf = uc_dup(buf);	/* the commands may change the register */
+	ret = ex_command(buf);
+	free(buf);
+	return ret;
 }
 
 static int ec_source(char *loc, char *cmd, char *arg, char *txt)
